@@ -118,6 +118,17 @@ func c01Clause2(x, enc []byte, b mp4.Box) (string, string) {
 	if trakRegroup(x) {
 		return "", "" // listed order normalisation (moov.trak-regroup)
 	}
+	if b.Type() == "mdat" && len(x) >= 8 {
+		// an mdat whose declared size exceeds the bytes present: accepted by the SliceReader path and written back
+		// with the size of what was there (the known finding also reported at file level)
+		decl := uint64(binary.BigEndian.Uint32(x))
+		if decl == 1 && len(x) >= 16 {
+			decl = binary.BigEndian.Uint64(x[8:])
+		}
+		if decl > uint64(len(x)) {
+			return "truncated mdat accepted by the SliceReader path and re-encoded shorter", fmt.Sprintf("declared size %d, %d bytes present", decl, len(x))
+		}
+	}
 	if len(enc) != len(x) {
 		// the only admitted length normalisation: 64-bit header forms are written in the 32-bit form (not for mdat)
 		if nx, ok := normLargeSize(x, b, 0); ok && len(nx) == len(enc) {
